@@ -77,37 +77,60 @@ def check(ctx, run):
                 allfns[fn] = mn
 
     # ---------------- R2 ----------------------------------------------------
+    GLOBALS = {"actualCall": 9000, "expectedCall": 9050, "currentMockSupport": 8000}
+    CPP = ("MockExpectedCall::", "MockActualCall::", "MockSupport::")
+    cpp_methods = set()
+    for g_ in prog.functions.values():
+        if g_.file == UNIT:
+            for c in g_.calls():
+                nm = prog.callee_name(g_, c) or ""
+                if nm.startswith(CPP):
+                    cpp_methods.add(nm)
+
     def forwarder_shape(f, family_recv, method, want_types=None, assign_back=None, ret=None, bool_conv_at=None):
-        """check: exactly one call to `method` with receiver `family_recv`, args == params in order"""
-        paths = enumerate_paths(f)
+        """the forwarder folded on distinctive argument values with recording stubs for the C++ interface: exactly one
+        call to `method` on the object `family_recv` points to, with exactly the forwarder's own argument values in order
+        (helpers and named temporaries are transparent); the overload chosen at that call site has the named parameter type"""
         why = []
-        for p in paths:
-            cs = [c for c in path_calls(prog, f, p) if (prog.callee_name(f, c) or "").split("::")[-1] == method.split("::")[-1]
-                  and (prog.callee_name(f, c) or "").split("::")[0] in method.split("::")[0].split("|")]
-            if len(cs) != 1:
-                why.append("%d calls to %s on path [%s]" % (len(cs), method, p.describe(f)))
-                continue
-            c = cs[0]
-            recv = render(f, f.node(c.get("obj"))) if c.get("obj") is not None else None
-            if recv != family_recv:
-                why.append("receiver is %s, expected %s" % (recv, family_recv))
-            args = f.args(c)
-            pn = [q["name"] for q in f.params]
-            got = []
-            for i, a in enumerate(args):
-                v, conv = strip_value(f, a)
-                got.append(render(f, v) if v is not None else "?")
-            if got != pn:
-                why.append("passes (%s), its own parameters are (%s)" % (", ".join(got), ", ".join(pn)))
-            if want_types is not None:
-                pt = callee_param_types(prog, c)
-                if pt is None:
-                    why.append("callee parameter types unknown")
-                else:
-                    # compare the value parameter(s)
-                    for idx, wt in want_types.items():
-                        if idx >= len(pt) or pt[idx].replace("const ", "", 1) != wt and pt[idx] != wt:
-                            why.append("overload resolution picked parameter type %s, the function is named for %s" % (pt[idx] if idx < len(pt) else None, wt))
+        env = dict(GLOBALS)
+        env.update({"gActualCall": 777001, "gExpectedCall": 777002, "gMockSupport": 777003, "comparatorList_": 0, "copierList_": 0})
+        pvals = []
+        for i, q in enumerate(f.params):
+            v = ("str", "p%d" % i) if q["ct"].replace("const ", "").strip() == "char *" else 101 + i
+            env[q["name"]] = v
+            pvals.append(v)
+        seen = []
+        hooks = {nm: (lambda *a_, nm=nm: (seen.append((nm, a_[0] if a_ else None, tuple(a_[1:]))), 9100)[1]) for nm in cpp_methods}
+        ev = Evaluator(prog, f, env=env, calls=string_hooks(hooks))
+        ev.pass_object = True
+        try:
+            ev.run_blocks(f.entry, max_steps=600)
+        except Unknown as u:
+            pass        # (the value handed back may be unmodelled: what matters here is the forwarding call made)
+        mname = method.split("::")[-1]
+        classes = method.split("::")[0].split("|")
+        mine = [x for x in seen if x[0].split("::")[-1] == mname and x[0].split("::")[0] in classes]
+        if len(mine) != 1:
+            why.append("%d calls to %s (calls made: %s)" % (len(mine), method, [x[0] for x in seen]))
+            return why
+        nm, recv, args = mine[0]
+        if recv != GLOBALS.get(family_recv):
+            why.append("receiver is %s, expected the object %s points to" % (recv, family_recv))
+        norm_ = lambda v: v[1] if isinstance(v, tuple) and v[0] == "str" else v
+        got, want = [norm_(x) for x in args], [norm_(x) for x in pvals]
+        bool_ok = len(got) == len(want) and all(g == w or (g in (0, 1) and isinstance(w, int) and g == (1 if w else 0)) for g, w in zip(got, want))
+        if not bool_ok:
+            why.append("passes (%s), its own parameters are (%s)" % (", ".join(map(str, got)), ", ".join(q["name"] + "=" + str(norm_(v)) for q, v in zip(f.params, pvals))))
+        if want_types is not None:
+            sites = [(g_, c) for g_ in prog.functions.values() if g_.file == UNIT and (g_ is f or (not g_.cls and g_.d.get("static"))) for c in g_.calls() if (prog.callee_name(g_, c) or "") == nm]
+            sites = [(g_, c) for g_, c in sites if g_ is f] or sites
+            pt = callee_param_types(prog, sites[0][1]) if sites else None
+            if pt is None:
+                why.append("callee parameter types unknown")
+            else:
+                for idx, wt in want_types.items():
+                    if idx >= len(pt) or pt[idx].replace("const ", "", 1) != wt and pt[idx] != wt:
+                        why.append("overload resolution picked parameter type %s, the function is named for %s" % (pt[idx] if idx < len(pt) else None, wt))
         return why
 
     checked = 0
@@ -319,8 +342,21 @@ def check(ctx, run):
     for nm, scope in (("mock_c", '""'), ("mock_scope_c", None)):
         f = prog.fn(nm)
         run.analysed(f)
-        a = [(l, render(f, r)) for l, r, n in assignments(f)]
-        sc = scope if scope is not None else f.params[0]["name"]
-        ok = ("currentMockSupport", "&mock(SimpleString(%s), &failureReporterForC)" % sc) in a or ("currentMockSupport", "&mock(%s, &failureReporterForC)" % sc) in a
-        rets = [render(f, f.node(n.get("value"))) for n in f.walk() if n["k"] == "ReturnStmt"]
-        run.ob("R4", "%s selects the scope, installs the C reporter and returns &gMockSupport" % nm, f.site, ok and rets == ["&gMockSupport"], witness={"assign": a, "returns": rets})
+        seen = []
+        env = {"currentMockSupport": 8000}
+        if f.params:
+            env[f.params[0]["name"]] = ("str", "scopeX")
+        ev = Evaluator(prog, f, env=env, calls=string_hooks({"mock": lambda *a_: (seen.append(a_), ("ref", "SUPPORT"))[1]}))
+        ev.pass_object = True
+        ev.heap_mode = True
+        ev.inline = {g_.qn for g_ in prog.functions.values() if g_.file == UNIT and not g_.cls} - set(ev.calls)
+        try:
+            ev.run_blocks(f.entry, max_steps=300)
+            r = getattr(ev, "ret", None)
+        except Unknown as u:
+            r = "unknown: %s" % u
+        want_scope = "" if scope is not None else "scopeX"
+        norm_ = lambda v: v[1] if isinstance(v, tuple) and v[0] in ("str", "ref") else v
+        ok = len(seen) == 1 and norm_(seen[0][0]) == want_scope and norm_(seen[0][1]) == "failureReporterForC" and norm_(ev.env.get("currentMockSupport")) == "SUPPORT" and norm_(r) == "gMockSupport"
+        run.ob("R4", "%s selects the scope, installs the C reporter and returns &gMockSupport" % nm, f.site, ok,
+               witness={"mock called with": [[str(norm_(x)) for x in a_] for a_ in seen], "currentMockSupport": str(ev.env.get("currentMockSupport")), "returns": str(r)})
